@@ -110,10 +110,28 @@ def search(ctx):
     workers = 12
     jails = [Jail(["ls", "git", "true"], real=["tee", "sort", "sed", "awk", "iconv", "cat", "touch"]) for _ in range(workers)]
     try:
+        # deterministic sweep: every operator x every node kind x every target spelling, and every tool x target, under the
+        # base configuration; a third of it per run in the quick tier (rotating with the seed), all of it in the thorough tier
+        sweep = []
+        tg0 = targets("@WORK@")
+        for op in OPS:
+            for node in NODES:
+                for t in tg0:
+                    sweep.append(node.format(cmd="echo hi", r=" " + op + " " + t))
+        for tool in TOOLS:
+            for t in tg0:
+                if not t.startswith(("&", '"', "'", "-")):
+                    sweep.append(tool.format(f=t))
+        step = 1 if ctx.tier == "thorough" or ctx.broken else 3
+        off = r.randrange(step)
+        sweep = [x for i, x in enumerate(sweep) if i % step == off]
+        stats["sweep_commands"] = len(sweep)
+
         def run_many(jail, k):
             rr = rng("c02-search-%d" % k)
             out = []
-            for _ in range(n // workers):
+            mine = sweep[k::workers]
+            for it in range(len(mine) + n // workers):
                 jail.reset()
                 work = jail.work
                 for d in ("sub", "okdir/deep"):
@@ -128,9 +146,13 @@ def search(ctx):
                     lp = os.path.join(work, link)
                     if not os.path.lexists(lp):
                         os.symlink(dest, lp)
-                cfg_text = config_for(work, rr)
+                if it < len(mine):
+                    cfg_text = "allow-redirect " + work + "/ok\nallow-redirect " + work + "/okdir/**\ndeny-redirect " + work + "/no \"no\"\nask-redirect " + work + "/q\n"
+                    x, cd = mine[it].replace("@WORK@", work), None
+                else:
+                    cfg_text = config_for(work, rr)
+                    x, cd = gen_case(rr, work)
                 cfg = C.parse_config(cfg_text)
-                x, cd = gen_case(rr, work)
                 d = analyze(x, cfg, Path(work))
                 if d.action != "allow":
                     out.append(("skip", d.action))
